@@ -489,7 +489,7 @@ int main (void) {
 				begin_call (); o.ret = p_socket_close (slots[s], &o.err); o.slot = s; answer (&o);
 			}
 			else if (!strcmp (tok[0], "shutdown") && nt == 4) {
-				if (!parse_slot (tok[1], &s) || !parse_bool (tok[2], &b1) || !parse_bool (tok[3], &b2)) BAD;
+				if (!parse_slot (tok[1], &s) || !parse_pbool (tok[2], &b1) || !parse_pbool (tok[3], &b2)) BAD;
 				begin_call (); o.ret = p_socket_shutdown (slots[s], b1, b2, &o.err); o.slot = s; answer (&o);
 			}
 			else if (!strcmp (tok[0], "setbuf") && nt == 4) {
